@@ -213,3 +213,62 @@ func VerifH_C02_wire() {
 	}
 	vCover("C02.wire.done", done)
 }
+
+// A response header block - optionally starting with a dynamic table size
+// update, then :status and a field inserted into the dynamic table - cut at any
+// two bytes into HEADERS + CONTINUATION + CONTINUATION (or fewer frames), with
+// END_STREAM on the HEADERS frame itself (no body) or on a DATA frame: the
+// caller gets the status and the field, and a second response that refers to
+// the inserted field by index decodes to it (the decoder saw the whole block).
+//
+//verif:harness prop=C02,C20 unwind=200 timeout=900
+func VerifH_C02_block() {
+	cl := vStartClient()
+	a := cl.request("GET", "/a", nil)
+	b := cl.request("GET", "/b", nil)
+	cl.sent()
+	upd := vBool()
+	endOnHeaders := vBool()
+	blk := []byte{0x88, 0x40, 0x03, 'x', '-', 't', 0x01, 'A'}
+	if upd {
+		blk = append([]byte{0x3f, 0xe1, 0x1f}, blk...) // size update to 4096
+	}
+	cut1 := vRange(0, len(blk))
+	cut2 := vRange(cut1, len(blk))
+	es := byte(0)
+	if endOnHeaders {
+		es = 0x1
+	}
+	switch {
+	case cut1 == len(blk):
+		cl.feed(vFrame(0x1, 0x4|es, 1, blk))
+	case cut2 == len(blk):
+		cl.feed(vFrame(0x1, es, 1, blk[:cut1]))
+		cl.feed(vFrame(0x9, 0x4, 1, blk[cut1:]))
+	default:
+		cl.feed(vFrame(0x1, es, 1, blk[:cut1]))
+		cl.feed(vFrame(0x9, 0x0, 1, blk[cut1:cut2]))
+		cl.feed(vFrame(0x9, 0x4, 1, blk[cut2:]))
+	}
+	if !endOnHeaders {
+		cl.feed(vFrame(0x0, 0x1, 1, []byte("ok")))
+	}
+	done, err := a.outcome()
+	vNote(fmt.Sprintf("upd=%v endOnHeaders=%v cut1=%d cut2=%d done=%v err=%v", upd, endOnHeaders, cut1, cut2, done, err))
+	vAssert(done && err == nil, "C02.block.response-delivered")
+	if done && err == nil {
+		vAssert(a.res.StatusCode() == 200, "C02.block.status")
+		vAssert(string(a.res.Header.Peek("x-t")) == "A", "C02.block.field")
+		if !endOnHeaders {
+			vAssert(string(a.res.Body()) == "ok", "C02.block.body")
+		}
+	}
+	// stream 3: :status 404 and the dynamic entry by index
+	cl.feed(vFrame(0x1, 0x5, 3, []byte{0x8d, 0xbe}))
+	d2, e2 := b.outcome()
+	vAssert(d2 && e2 == nil, "C02.block.second-response-delivered")
+	if d2 && e2 == nil {
+		vAssert(b.res.StatusCode() == 404 && string(b.res.Header.Peek("x-t")) == "A", "C02.block.decoder-in-step")
+	}
+	vCover("C02.block.three-frames", cut1 > 0 && cut2 > cut1 && cut2 < len(blk) && done && upd && endOnHeaders)
+}
